@@ -159,9 +159,11 @@ def gen_mod(rng, spec, protected, counter):
     if chance(rng, 0.3):
         partial["label"] = f"updated {v['name']}"
     if v["unit"] != "eternity" and i > 0 and chance(rng, 0.7):
-        start = pick(rng, ["2018-01-01", "2018-07-01", "2017-06-01", "0001-01-01"])
-        if v.get("end") is None or start <= v["end"]:
-            partial["formulas"] = {start: g.expr(rng.randint(0, 2))}
+        # one to three dated formulas: the update redefines from its *first* one on
+        starts = rng.sample(["2018-01-01", "2018-07-01", "2017-06-01", "0001-01-01", "2018-03-15", "2019-01-01"], rng.randint(1, 3))
+        starts = [s for s in starts if v.get("end") is None or s <= v["end"]]
+        if starts:
+            partial["formulas"] = {s: g.expr(rng.randint(0, 2)) for s in sorted(starts)}
     if len(partial) == 1:
         partial["label"] = f"updated {v['name']}"
     return ["update", partial]
